@@ -58,7 +58,8 @@ theorem clean_inA {p : Par} {s : State} {t0 : Nat} {frs : List Frm} {gab grest :
     obtain ⟨_, _, e3, e4, e5⟩ := h.fba (t0, frs) (List.mem_cons_self ..) fr hfr
     have := h.ord.2
     exact ⟨e3, by omega, e5⟩
-  obtain ⟨c, su, pr, rw, hk, hge, hpn, hrt⟩ := inFrs_ackLike p.base frs { k := s.A } h.asort h.abnd
+  obtain ⟨c, su, pr, rw, hk, hge, hpn, hrt⟩ := inFrs_ackLike p.base frs { k := s.A }
+    (fun x hx => (h.aseg x hx).1) h.asort h.abnd
     (by show o p.base s.A.snd_nxt < 2 ^ 31; omega) hal rfl
   have hst_min : (inFrs true frs { k := s.A }).k.rx_minrto = s.A.rx_minrto := by rw [hk]
   have hst_rto : (inFrs true frs { k := s.A }).k.rx_rto = s.A.rx_rto := by rw [hk]
